@@ -3,12 +3,23 @@
    alternatives, span tokens, synonyms, keywords), the skip_tokens filter of
    parse() (llparser.py 1646-1649) and the main loop (LLP/Parse.v); the optional
    per-call start symbol (1646-1653); sessions: one parser object used for a
-   sequence of parse() calls, a second parser made from the same productions.
-   The model is a pure function, so it has no state between calls: whatever the
-   implementation keeps between calls must not be observable.
+   sequence of parse() calls, a second parser made from the same productions;
+   then the caller changes the objects it had passed to the constructor IN PLACE
+   (skip_tokens container, productions dict and its lists, span_matchers,
+   keep_symbols; synonyms / keywords dicts) and both parsers run further calls.
+   The model is a pure function, so it has no state between calls and a parser
+   value cannot change after it was built: whatever the implementation keeps
+   between calls, and whatever the caller does to the argument objects later,
+   must not be observable.  The one exception is what the code does today with
+   the synonyms / keywords dicts: _Tokenizer.__init__ stores the caller's own
+   dict (self.synonyms = synonyms or {}), the tokenizer reads it at every
+   match; gen/C01_Consts.v records, from the current source, whether each of
+   the two is stored as it is or copied, and the calls made after the change
+   tokenise with the changed dict exactly when it is stored as it is (the
+   terminals, the skip set and the parse table stay the constructor's).
    No proofs in this file. *)
 From Coq Require Import ZArith List Bool.
-From AK Require Export Common.Sx Common.Err LLP.Build C01.Spec C01.Run gen.C04_Consts C04.Model.
+From AK Require Export Common.Sx Common.Err LLP.Build C01.Spec C01.Run gen.C04_Consts gen.C01_Consts C04.Model.
 Import ListNotations.
 Open Scope Z_scope.
 
@@ -69,6 +80,13 @@ Inductive source :=
 
 Notation call := (nat * option sym)%type.     (* index of the text, start_symbol_name *)
 
+(* The caller extends (or shrinks) ITS skip_tokens container, possibly empties its span_matchers dict, and makes one
+   more parser from the same argument objects, uses it, then changes the productions / synonyms / keywords objects:
+   (configuration of the new parser; token names it skips in addition when the session has the plain tokenizer;
+   smart; start; its calls before, and its calls after, the last changes) *)
+Notation third_parser :=
+  (option (lexcfg * option (list sym)) * list sym * bool * sym * list call * list call)%type.
+
 Inductive case :=
 | Old (c : Run.case)
 | Session (tk : option (lexcfg * option (list sym)))
@@ -76,6 +94,9 @@ Inductive case :=
           (smart : bool) (start : sym) (fuel : nat)
           (texts : list source) (calls : list call)
           (second : option (bool * sym * list call))
+          (cfg2 : option lexcfg)          (* synonyms / keywords after the caller changed these dicts in place (None: untouched) *)
+          (after after2 : list call)      (* calls made on the first / second parser after the caller changed the argument objects *)
+          (third : option third_parser)   (* a parser the caller makes from its skip_tokens / span_matchers objects after changing them *)
           (expected : sx).     (* the canonical observation of the implementation; compared here (see [run]) *)
 
 Definition s_terminals (tk : option (lexcfg * option (list sym))) (terminals : list sym) : list sym :=
@@ -94,17 +115,49 @@ Definition s_tokens (tk : option (lexcfg * option (list sym))) (src : source) : 
   | SText _, None => Err OtherErr
   end.
 
-Definition s_call (tk : option (lexcfg * option (list sym))) (p : parser) (fuel : nat)
+Definition s_call_with (tokf : source -> res (list token)) (p : parser) (fuel : nat)
     (texts : list source) (c : call) : res tree :=
   match nth_error texts (fst c) with
   | None => Err OtherErr
   | Some src =>
       match snd c with
       | Some s' => if start_ok p s' then
-                     bind (s_tokens tk src) (fun toks => parse_at p fuel toks (snd c))
+                     bind (tokf src) (fun toks => parse_at p fuel toks (snd c))
                    else Err AssertErr
-      | None => bind (s_tokens tk src) (fun toks => parse_at p fuel toks None)
+      | None => bind (tokf src) (fun toks => parse_at p fuel toks None)
       end
+  end.
+
+Definition s_call (tk : option (lexcfg * option (list sym))) := s_call_with (s_tokens tk).
+
+(* the tokenizer configuration in force after the caller changed its synonyms / keywords dicts in place:
+   the changed table where the tokenizer kept the caller's object ([syn_aliased] / [kw_aliased], read from the
+   source), the constructor's where it made a copy; patterns and span matchers were compiled by the constructor *)
+Definition cfg_after (cfg : lexcfg) (cfg2 : option lexcfg) : lexcfg :=
+  match cfg2 with
+  | None => cfg
+  | Some c2 => mkCfg (c_lex cfg) (c_spans cfg)
+                     (if syn_aliased then c_syn c2 else c_syn cfg)
+                     (if kw_aliased then c_kw c2 else c_kw cfg)
+  end.
+
+(* the skip set is the one the constructor computed (from the terminals of the configuration it was given) *)
+Definition s_tokens_after (tk : option (lexcfg * option (list sym))) (cfg2 : option lexcfg) (src : source)
+    : res (list token) :=
+  match src, tk with
+  | SToks l, _ => Ok (mk_toks l)
+  | SText s, Some (cfg, skip) => text_tokens (cfg_after cfg cfg2) (skip_set (cfg_terminals cfg) skip) s
+  | SText _, None => Err OtherErr
+  end.
+
+(* the tokens the third parser gets; [cfg2] = None before the synonyms / keywords dicts were changed *)
+Definition s_tokens3 (tk3 : option (lexcfg * option (list sym))) (xskip : list sym) (cfg2 : option lexcfg)
+    (src : source) : res (list token) :=
+  match src, tk3 with
+  | SToks l, _ => Ok (mk_toks (filter (fun nv => negb (mem (fst nv) xskip)) l))
+  | SText s, Some (cfg, skip) =>
+      text_tokens (match cfg2 with None => cfg | Some _ => cfg_after cfg cfg2 end) (skip_set (cfg_terminals cfg) skip) s
+  | SText _, None => Err OtherErr
   end.
 
 (* what the tokenizer + filter deliver for a text: names and values, without $END$ *)
@@ -142,33 +195,59 @@ Fixpoint sx_trunc (depth : nat) (s : sx) : sx :=
   end.
 
 Definition observe tk ug terminals smart start fuel texts calls
-    (second : option (bool * sym * list call)) : sx :=
+    (second : option (bool * sym * list call)) (cfg2 : option lexcfg) (after after2 : list call)
+    (third : option third_parser) : sx :=
   match s_build tk ug terminals smart start with
   | Err e => SL [SZ 1; SZ (err_code e)]
   | Ok p =>
+      let changed := match after, after2, third with [], [], None => false | _, _, _ => true end in
+      (* the second parser: its observation before, and its calls after, the caller changed the argument objects *)
+      let sec :=
+        match second with
+        | None => (SL [], SL [])
+        | Some (smart2, start2, calls2) =>
+            match s_build tk ug terminals smart2 start2 with
+            | Err e => (SL [SZ 1; SZ (err_code e)], SL [])
+            | Ok p2 =>
+                (SL [SZ 0; sx_bool (is_ambiguous (p_tables p2));
+                     SL (map (fun c => sx_res sx_tree (s_call tk p2 fuel texts c)) calls2);
+                     sx_bool (is_ambiguous (p_tables p2))],
+                 SL (map (fun c => sx_res sx_tree (s_call_with (s_tokens_after tk cfg2) p2 fuel texts c)) after2))
+            end
+        end in
+      let thd :=
+        match third with
+        | None => SL []
+        | Some (tk3, xskip, smart3, start3, calls3, after3) =>
+            match s_build tk3 ug terminals smart3 start3 with
+            | Err e => SL [SZ 1; SZ (err_code e)]
+            | Ok p3 =>
+                SL [SZ 0; sx_bool (is_ambiguous (p_tables p3));
+                    SL (map (fun c => sx_res sx_tree (s_call_with (s_tokens3 tk3 xskip None) p3 fuel texts c)) calls3);
+                    SL (map (fun c => sx_res sx_tree
+                               (s_call_with (s_tokens3 tk3 xskip (match cfg2 with None => None | Some _ => cfg2 end)) p3 fuel texts c))
+                            after3)]
+            end
+        end in
       SL [SZ 0; sx_bool (is_ambiguous (p_tables p));
           sx_bool (hyps_ok ug start p);
           SL (map (fun src => sx_tokens (s_tokens tk src)) texts);
           SL (map (fun c => sx_res sx_tree (s_call tk p fuel texts c)) calls);
           sx_bool (is_ambiguous (p_tables p));       (* is_ambiguous() asked again after the calls: no history *)
-          match second with
-          | None => SL []
-          | Some (smart2, start2, calls2) =>
-              match s_build tk ug terminals smart2 start2 with
-              | Err e => SL [SZ 1; SZ (err_code e)]
-              | Ok p2 =>
-                  SL [SZ 0; sx_bool (is_ambiguous (p_tables p2));
-                      SL (map (fun c => sx_res sx_tree (s_call tk p2 fuel texts c)) calls2);
-                      sx_bool (is_ambiguous (p_tables p2))]
-              end
-          end]
+          fst sec;
+          sx_bool true;      (* the constructor and parse() left every argument object as the caller made it *)
+          (* after the caller changed the argument objects in place: the tokens of every text, the further calls *)
+          (if changed then SL (map (fun src => sx_tokens (s_tokens_after tk cfg2 src)) texts) else SL []);
+          SL (map (fun c => sx_res sx_tree (s_call_with (s_tokens_after tk cfg2) p fuel texts c)) after);
+          snd sec;
+          thd]
   end.
 
 Definition run (c : case) : sx :=
   match c with
   | Old c => Run.run c
-  | Session tk ug terminals smart start fuel texts calls second expected =>
-      match sx_diff (observe tk ug terminals smart start fuel texts calls second) expected with
+  | Session tk ug terminals smart start fuel texts calls second cfg2 after after2 third expected =>
+      match sx_diff (observe tk ug terminals smart start fuel texts calls second cfg2 after after2 third) expected with
       | None => SL []
       | Some (p, u, v) => SL [SZ (-1); SL (map SZ p); sx_trunc 5 u; sx_trunc 5 v]
       end
